@@ -64,7 +64,10 @@ class TGen:
 
     def leaf(self, t) -> Node:
         r = self.rnd
-        in_scope = [n for n, tt in self.scope if tt == t]
+        visible = {}
+        for n, tt in self.scope:  # an inner macro variable shadows an outer one of the same name
+            visible[n] = tt
+        in_scope = [n for n, tt in visible.items() if tt == t]
         if in_scope and r.random() < 0.6:
             return Node("var", t, r.choice(in_scope))
         if isinstance(t, tuple) or t in ("ts", "dur"):
